@@ -16,14 +16,15 @@ import (
 )
 
 type SolverStats struct {
-	Queries  int
-	Sat      int
-	Unsat    int
-	Unknown  int
-	Errors   int
-	Time     time.Duration
-	Restarts int
-	MaxMs    int64
+	Queries   int
+	Sat       int
+	Unsat     int
+	Unknown   int
+	Errors    int
+	Time      time.Duration
+	Restarts  int
+	MaxMs     int64
+	Fallbacks int
 }
 
 type Solver struct {
@@ -40,6 +41,7 @@ type Solver struct {
 	intMode   bool // integer back end (intmode.go)
 	ranges    map[int]intRange
 	cur       *Term
+	fallback  *Solver // bit-vector solver for queries the integer back end cannot express
 	Stats     SolverStats
 	log       io.Writer // optional transcript
 }
@@ -102,6 +104,10 @@ func (s *Solver) start() {
 }
 
 func (s *Solver) Close() {
+	if s.fallback != nil {
+		s.fallback.Close()
+		s.fallback = nil
+	}
 	if s.cmd != nil {
 		s.in.Close()
 		s.cmd.Process.Kill()
@@ -266,14 +272,22 @@ func (s *Solver) check(asserts []*Term, wantModel bool) (string, map[string]uint
 	if s.intMode {
 		if why := s.defineAllInt(asserts, &sb); why != "" {
 			// definitions emitted so far stay valid; the query is not asked
+			// of the integer back end but of a bit-vector solver instead
 			s.send(sb.String())
-			s.Stats.Queries++
-			s.Stats.Unknown++
-			if s.Stats.Errors < 3 {
-				fmt.Fprintf(logw, "solver %s: not expressible over integers: %s\n", s.name, why)
+			if s.fallback == nil {
+				s.fallback = NewSolver("z3-new", s.timeoutMs)
 			}
-			s.Stats.Errors++
-			return "unknown", nil
+			s.Stats.Fallbacks++
+			before := s.fallback.Stats
+			res, model := s.fallback.Check(asserts, wantModel)
+			after := s.fallback.Stats
+			s.Stats.Queries += after.Queries - before.Queries
+			s.Stats.Sat += after.Sat - before.Sat
+			s.Stats.Unsat += after.Unsat - before.Unsat
+			s.Stats.Unknown += after.Unknown - before.Unknown
+			s.Stats.Time += after.Time - before.Time
+			_ = why
+			return res, model
 		}
 	} else {
 		for _, a := range asserts {
